@@ -1,6 +1,8 @@
 (* Completeness of the kFlowDecomp LP: every decomposition into k weighted source-to-sink paths that
-   explains the non-ignored flow IS a satisfying assignment of PathEnc.encode_kfd (no subpath
-   constraints).  Together with kfd_sound: the LP for k is feasible  <=>  such a decomposition exists. *)
+   explains the non-ignored flow IS a satisfying assignment of PathEnc.encode_kfd -- without subpath
+   constraints (kfd_complete) and with them, when every constraint is covered to the required fraction by
+   one of the paths (kfd_complete_cons).  Together with kfd_sound / cons_rows_sound: the LP for k is
+   feasible  <=>  such a decomposition exists. *)
 From Coq Require Import List NArith ZArith QArith Lqa Bool Arith Lia Permutation.
 Import ListNotations.
 From FP Require Import Lin Blocks BlocksProofs PathEnc Aug AugProofs Euler EulerProofs1 EulerProofs2 DagDecode PathEncProofs.
@@ -63,8 +65,8 @@ Section Complete.
   Let t := g_snk G.
   Variable P : N -> list node.          (* the full path of layer i: s :: inner nodes ++ [t] *)
   Variable w : N -> Q.                   (* its weight *)
+  Variable ch : N -> N.                  (* the layer chosen to realise subpath constraint j *)
   Hypothesis WF : wf_graph G.
-  Hypothesis Hnocons : p_cons B = [].
   Hypothesis Hae : p_allow_empty B = false.
   Hypothesis HP : forall i, In i (layers k) ->
       hd_error (P i) = Some s /\ last (P i) s = t /\ NoDup (P i) /\ incl (pairs (P i)) E.
@@ -78,6 +80,7 @@ Section Complete.
     match vidx x with
     | [u; v; i] => if (vfam x =? fEdge)%N then indq (on i u v)
                    else if (vfam x =? fPi)%N then (w i * indq (on i u v))%Q else 0%Q
+    | [i; j] => if (vfam x =? fR)%N then indq (i =? ch j)%N else 0%Q
     | [i] => if (vfam x =? fW)%N then w i else 0%Q
     | _ => 0%Q
     end.
@@ -85,6 +88,7 @@ Section Complete.
   Lemma asg_edge u v i : asg (Edge u v i) = indq (on i u v). Proof. reflexivity. Qed.
   Lemma asg_pi u v i : asg (Pi u v i) = (w i * indq (on i u v))%Q. Proof. reflexivity. Qed.
   Lemma asg_w i : asg (W i) = w i. Proof. reflexivity. Qed.
+  Lemma asg_r i j : asg (R i j) = indq (i =? ch j)%N. Proof. reflexivity. Qed.
 
   Lemma indq_bin b : bin (indq b). Proof. destruct b; [right|left]; reflexivity. Qed.
   Lemma indq_int b : is_int (indq b). Proof. destruct b; [exists 1%Z|exists 0%Z]; reflexivity. Qed.
@@ -148,51 +152,132 @@ Section Complete.
     apply filter_In in He. destruct He as [He Hs]. apply N.eqb_eq in Hs. exact (wf_src G WF e (Hin e He) Hs).
   Qed.
 
-  Theorem kfd_complete : sat asg (encode_kfd I).
+  Lemma sat_edge_cols : Forall (sat_col asg) (edge_cols G k).
+  Proof.
+    unfold edge_cols. apply Forall_flat_map. intros i Hi. rewrite Forall_map. apply Forall_forall. intros e He.
+    apply col_of_bin. rewrite asg_edge. apply indq_bin.
+  Qed.
+
+  Lemma sat_kfd_cols : Forall (sat_col asg) (kfd_cols I).
+  Proof.
+    unfold kfd_cols. fold B G k. rewrite Forall_app. split.
+    - apply Forall_flat_map. intros i Hi. rewrite Forall_map. apply Forall_forall. intros e He.
+      unfold sat_col, wcol_. cbn [cvar clb cub cint]. rewrite asg_pi. destruct (Hw i Hi) as [[W0 W1] Wi].
+      destruct (on i (fst e) (snd e)); cbn [indq]; repeat split; try lra.
+      + intros Hint. destruct (Wi Hint) as (z & Hz). exists z. rewrite Hz. ring.
+      + intros _. exists 0%Z. ring.
+    - rewrite Forall_map. apply Forall_forall. intros i Hi.
+      unfold sat_col, wcol_. cbn [cvar clb cub cint]. rewrite asg_w. destruct (Hw i Hi) as [[W0 W1] Wi]. repeat split; assumption.
+  Qed.
+
+  Lemma sat_path_rows : Forall (sat_row asg) (path_rows G k (p_allow_empty B)).
+  Proof.
+    unfold path_rows. rewrite Hae. rewrite Forall_app. split.
+    - rewrite Forall_map. apply Forall_forall. intros i Hi.
+      unfold sat_row, row_10a, mkrow. cbn [sns lhs rhs].
+      rewrite (eval_map_const asg (fun v => Edge (g_src G) v i) 1%Q), Qmult_1_l. fold s.
+      rewrite (sum_succ i s Hi).
+      pose proof (exc_path i s Hi) as Ex. unfold exc in Ex. rewrite (ind_src i Hi) in Ex.
+      rewrite N.eqb_refl in Ex. destruct (N.eqb_spec s t) as [Est|_]; [exfalso; exact (wf_st G WF Est)|].
+      cbn [ind1] in Ex. assert (outd (pairs (P i)) s = 1%nat) by lia. rewrite H. reflexivity.
+    - apply Forall_flat_map. intros i Hi. rewrite Forall_map. apply Forall_forall. intros v Hv.
+      unfold inner in Hv. apply filter_In in Hv. destruct Hv as [_ Hv]. apply andb_true_iff in Hv. destruct Hv as [Hs Ht].
+      apply negb_true_iff in Hs, Ht.
+      unfold sat_row, row_10c, mkrow. cbn [sns lhs rhs].
+      rewrite eval_app, (eval_map_const asg (fun u => Edge u v i) 1%Q), (eval_map_const asg (fun x => Edge v x i) (- (1))%Q).
+      rewrite (sum_pred i v Hi), (sum_succ i v Hi).
+      pose proof (exc_path i v Hi) as Ex. unfold exc, s, t in Ex. rewrite Hs, Ht in Ex. cbn [ind1] in Ex.
+      assert (Hio : outd (pairs (P i)) v = ind (pairs (P i)) v) by lia. rewrite Hio. ring.
+  Qed.
+
+  Lemma sat_kfd_rows : Forall (sat_row asg) (kfd_rows I).
+  Proof.
+    unfold kfd_rows. apply Forall_flat_map. intros e He. apply filter_In in He. destruct He as [He Hig].
+    apply negb_true_iff in Hig. unfold kfd_edge_rows. fold B G k. rewrite Forall_app. split.
+    - apply Forall_flat_map. intros i Hi.
+      apply (mcc_rows_exact asg _ _ _ 0%Q (f_wmax I)).
+      + rewrite asg_edge. apply indq_bin.
+      + rewrite asg_w. apply (Hw i Hi).
+      + rewrite asg_pi, asg_edge, asg_w. ring.
+    - constructor; [|constructor]. unfold sat_row, mkrow. cbn [sns lhs rhs].
+      rewrite (eval_map_const asg (fun i => Pi (fst e) (snd e) i) 1%Q), Qmult_1_l.
+      rewrite <- (Hflow e He Hig). apply sumq_ext. intros i Hi. rewrite asg_pi. unfold on. destruct e; reflexivity.
+  Qed.
+
+  Theorem kfd_complete : p_cons B = [] -> sat asg (encode_kfd I).
+  Proof.
+    intros Hnocons. split.
+    - unfold encode_kfd. cbn [cols]. unfold base_cols, cons_cols. fold B. rewrite Hnocons, app_nil_r.
+      rewrite Forall_app. split; [exact sat_edge_cols|exact sat_kfd_cols].
+    - unfold encode_kfd. cbn [rows]. unfold base_rows, cons_rows. fold B. rewrite Hnocons, app_nil_r.
+      rewrite Forall_app. split; [exact sat_path_rows|exact sat_kfd_rows].
+  Qed.
+
+  (* ---- with subpath constraints: constraint number n is realised by the path of layer ch n ---- *)
+  Hypothesis Hlen : forall c e, In c (p_cons B) -> In e c -> (0 <= elen B e)%Q.
+  Hypothesis Hch : forall n c, nth_error (p_cons B) n = Some c ->
+      In (ch (N.of_nat n)) (layers k) /\
+      (cons_length B c * p_cov B <= sumq (fun e => elen B e * indq (mem_edge e (pairs (P (ch (N.of_nat n)))))) c)%Q.
+
+  Lemma sumq_nonneg {A} (g : A -> Q) l : (forall x, In x l -> (0 <= g x)%Q) -> (0 <= sumq g l)%Q.
+  Proof.
+    induction l as [|x l IH]; intros H; cbn [sumq]; [lra|].
+    pose proof (H x (or_introl eq_refl)). assert (0 <= sumq g l)%Q by (apply IH; intros y Hy; apply H; right; exact Hy). lra.
+  Qed.
+
+  Lemma sum_ind_eq_ge1 (x : N) (L : list N) : In x L -> (1 <= sumq (fun i => indq (i =? x)%N) L)%Q.
+  Proof.
+    induction L as [|y L IH]; intros H; [destruct H|]. cbn [sumq].
+    assert (N0 : (0 <= sumq (fun i => indq (i =? x)%N) L)%Q) by (apply sumq_nonneg; intros z _; destruct (z =? x)%N; cbn [indq]; lra).
+    destruct H as [->|H].
+    - rewrite N.eqb_refl. cbn [indq]. lra.
+    - specialize (IH H). destruct (y =? x)%N; cbn [indq]; lra.
+  Qed.
+
+  Lemma sat_cons_cols : Forall (sat_col asg) (cons_cols B).
+  Proof.
+    unfold cons_cols. destruct (p_cons B); [constructor|].
+    apply Forall_flat_map. intros i Hi. rewrite Forall_map. apply Forall_forall. intros j Hj.
+    apply col_of_bin. rewrite asg_r. apply indq_bin.
+  Qed.
+
+  Lemma sat_cons_rows : Forall (sat_row asg) (cons_rows B).
+  Proof.
+    unfold cons_rows. destruct (p_cons B) as [|c0 cs] eqn:EC; [constructor|]. rewrite <- EC in *.
+    rewrite Forall_app. split.
+    - apply Forall_flat_map. intros i Hi. rewrite Forall_map. apply Forall_forall. intros [j c] Hjc.
+      destruct (in_zipn _ _ _ _ Hjc) as (n & -> & _ & Hn). rewrite Nat.sub_0_r in Hn.
+      unfold sat_row, row_7a, mkrow. cbn [sns lhs rhs fst snd].
+      rewrite eval_app, eval_map_coef_edges. cbn [eval fst snd]. rewrite asg_r.
+      destruct (Hch n c Hn) as [_ Hcov].
+      assert (Hc : In c (p_cons B)) by (apply nth_error_In with n; exact Hn).
+      destruct (N.eqb_spec i (ch (N.of_nat n))) as [->|_]; cbn [indq].
+      + assert (E1 : (sumq (fun e => elen B e * asg (Edge (fst e) (snd e) (ch (N.of_nat n)))) c ==
+                      sumq (fun e => elen B e * indq (mem_edge e (pairs (P (ch (N.of_nat n)))))) c)%Q).
+        { apply sumq_ext. intros e He. rewrite asg_edge. unfold on. destruct e; reflexivity. }
+        rewrite E1. lra.
+      + assert (N0 : (0 <= sumq (fun e => elen B e * asg (Edge (fst e) (snd e) i)) c)%Q).
+        { apply sumq_nonneg. intros e He. rewrite asg_edge. pose proof (Hlen c e Hc He).
+          destruct (on i (fst e) (snd e)); cbn [indq]; lra. }
+        lra.
+    - rewrite Forall_map. apply Forall_forall. intros j Hj.
+      unfold cons_idx in Hj. apply in_map_iff in Hj. destruct Hj as (n & <- & Hn). apply in_seq in Hn.
+      destruct (nth_error (p_cons B) n) as [c|] eqn:Hnth; [|apply nth_error_None in Hnth; lia].
+      destruct (Hch n c Hnth) as [Hin _].
+      unfold sat_row, row_7b, mkrow. cbn [sns lhs rhs]. fold k.
+      rewrite (eval_map_const asg (fun i => R i (N.of_nat n)) 1%Q), Qmult_1_l.
+      assert (E1 : (sumq (fun i => asg (R i (N.of_nat n))) (layers k) == sumq (fun i => indq (i =? ch (N.of_nat n))%N) (layers k))%Q).
+      { apply sumq_ext. intros i _. rewrite asg_r. reflexivity. }
+      rewrite E1. apply sum_ind_eq_ge1. exact Hin.
+  Qed.
+
+  Theorem kfd_complete_cons : sat asg (encode_kfd I).
   Proof.
     split.
-    - (* columns *)
-      unfold encode_kfd. cbn [cols]. unfold base_cols, cons_cols. fold B. rewrite Hnocons, app_nil_r.
-      rewrite Forall_app. split.
-      + unfold edge_cols. apply Forall_flat_map. intros i Hi. rewrite Forall_map. apply Forall_forall. intros e He.
-        apply col_of_bin. rewrite asg_edge. apply indq_bin.
-      + unfold kfd_cols. fold B G k. rewrite Forall_app. split.
-        * apply Forall_flat_map. intros i Hi. rewrite Forall_map. apply Forall_forall. intros e He.
-          unfold sat_col, wcol_. cbn [cvar clb cub cint]. rewrite asg_pi. destruct (Hw i Hi) as [[W0 W1] Wi].
-          destruct (on i (fst e) (snd e)); cbn [indq]; repeat split; try lra.
-          -- intros Hint. destruct (Wi Hint) as (z & Hz). exists z. rewrite Hz. ring.
-          -- intros _. exists 0%Z. ring.
-        * rewrite Forall_map. apply Forall_forall. intros i Hi.
-          unfold sat_col, wcol_. cbn [cvar clb cub cint]. rewrite asg_w. destruct (Hw i Hi) as [[W0 W1] Wi]. repeat split; assumption.
-    - (* rows *)
-      unfold encode_kfd. cbn [rows]. unfold base_rows, cons_rows. fold B. rewrite Hnocons, app_nil_r.
-      rewrite Forall_app. split.
-      + unfold path_rows. fold G k. rewrite Hae. rewrite Forall_app. split.
-        * rewrite Forall_map. apply Forall_forall. intros i Hi.
-          unfold sat_row, row_10a, mkrow. cbn [sns lhs rhs].
-          rewrite (eval_map_const asg (fun v => Edge (g_src G) v i) 1%Q), Qmult_1_l. fold s.
-          rewrite (sum_succ i s Hi).
-          pose proof (exc_path i s Hi) as Ex. unfold exc in Ex. rewrite (ind_src i Hi) in Ex.
-          rewrite N.eqb_refl in Ex. destruct (N.eqb_spec s t) as [Est|_]; [exfalso; exact (wf_st G WF Est)|].
-          cbn [ind1] in Ex. assert (outd (pairs (P i)) s = 1%nat) by lia. rewrite H. reflexivity.
-        * apply Forall_flat_map. intros i Hi. rewrite Forall_map. apply Forall_forall. intros v Hv.
-          unfold inner in Hv. apply filter_In in Hv. destruct Hv as [_ Hv]. apply andb_true_iff in Hv. destruct Hv as [Hs Ht].
-          apply negb_true_iff in Hs, Ht.
-          unfold sat_row, row_10c, mkrow. cbn [sns lhs rhs].
-          rewrite eval_app, (eval_map_const asg (fun u => Edge u v i) 1%Q), (eval_map_const asg (fun x => Edge v x i) (- (1))%Q).
-          rewrite (sum_pred i v Hi), (sum_succ i v Hi).
-          pose proof (exc_path i v Hi) as Ex. unfold exc, s, t in Ex. rewrite Hs, Ht in Ex. cbn [ind1] in Ex.
-          assert (Hio : outd (pairs (P i)) v = ind (pairs (P i)) v) by lia. rewrite Hio. ring.
-      + unfold kfd_rows. apply Forall_flat_map. intros e He. apply filter_In in He. destruct He as [He Hig].
-        apply negb_true_iff in Hig. unfold kfd_edge_rows. fold B G k. rewrite Forall_app. split.
-        * apply Forall_flat_map. intros i Hi.
-          apply (mcc_rows_exact asg _ _ _ 0%Q (f_wmax I)).
-          -- rewrite asg_edge. apply indq_bin.
-          -- rewrite asg_w. apply (Hw i Hi).
-          -- rewrite asg_pi, asg_edge, asg_w. ring.
-        * constructor; [|constructor]. unfold sat_row, mkrow. cbn [sns lhs rhs].
-          rewrite (eval_map_const asg (fun i => Pi (fst e) (snd e) i) 1%Q), Qmult_1_l.
-          rewrite <- (Hflow e He Hig). apply sumq_ext. intros i Hi. rewrite asg_pi. unfold on. destruct e; reflexivity.
+    - unfold encode_kfd. cbn [cols]. unfold base_cols. fold B G k.
+      rewrite !Forall_app. split; [split; [exact sat_edge_cols|exact sat_cons_cols]|exact sat_kfd_cols].
+    - unfold encode_kfd. cbn [rows]. unfold base_rows. fold B G k.
+      rewrite !Forall_app. split; [split; [exact sat_path_rows|exact sat_cons_rows]|exact sat_kfd_rows].
   Qed.
 End Complete.
 
@@ -234,7 +319,7 @@ Proof.
           { apply mem_edge_In. apply (Permutation_in _ Pm). apply Sup_In. split; [exact He|exact X]. }
           rewrite M. reflexivity. }
       rewrite Q. reflexivity.
-  - intros (P & w & HP & Hw & Hf). exists (asg P w). apply kfd_complete; assumption.
+  - intros (P & w & HP & Hw & Hf). exists (asg P w (fun _ => 0%N)). apply kfd_complete; assumption.
 Qed.
 
 (* ---- C03 composed: search + exact solver + feasibility characterisation ---- *)
@@ -264,5 +349,107 @@ Proof.
   - intros k Hk. destruct (feasible k) eqn:F; [exfalso|reflexivity].
     apply Hspec in F. destruct (Hinst k) as (_ & WF & Hnc & Hae & Hrk).
     apply (kfd_feasible_iff (inst k) rank Rm WF Hnc Hae Hrk HR) in F. exact (Hmin k Hk F).
+  - exact Hrange.
+Qed.
+
+(* ---- the same with subpath constraints ---- *)
+Definition constraints_covered (B : path_inst) (P : N -> list node) : Prop :=
+  forall n c, nth_error (p_cons B) n = Some c ->
+    exists i, In i (layers (p_k B)) /\
+      (cons_length B c * p_cov B <= sumq (fun e => elen B e * indq (mem_edge e (pairs (P i)))) c)%Q.
+
+Lemma finite_choice {A} (l : list A) : forall (Pr : nat -> A -> N -> Prop),
+  (forall n c, nth_error l n = Some c -> exists i, Pr n c i) ->
+  exists ch : N -> N, forall n c, nth_error l n = Some c -> Pr n c (ch (N.of_nat n)).
+Proof.
+  induction l as [|a r IH]; intros Pr H.
+  - exists (fun _ => 0%N). intros n c Hn. destruct n; discriminate.
+  - destruct (H 0%nat a eq_refl) as (i0 & H0).
+    destruct (IH (fun n => Pr (Datatypes.S n))) as (ch' & Hch').
+    { intros n c Hn. apply (H (Datatypes.S n) c Hn). }
+    exists (fun j => if (j =? 0)%N then i0 else ch' (N.pred j)). intros n c Hn. destruct n as [|n].
+    + cbn in Hn. injection Hn as <-. exact H0.
+    + cbn [nth_error] in Hn. replace (N.of_nat (Datatypes.S n) =? 0)%N with false by (symmetry; apply N.eqb_neq; lia).
+      replace (N.pred (N.of_nat (Datatypes.S n))) with (N.of_nat n) by lia. apply Hch'. exact Hn.
+Qed.
+
+Theorem kfd_feasible_iff_cons (I : kfd_inst) (rank : node -> nat) (Rm : nat) :
+  wf_graph (p_graph (f_base I)) -> p_allow_empty (f_base I) = false ->
+  (forall u v, In (u, v) (g_edges (p_graph (f_base I))) -> (rank u < rank v)%nat) -> (forall v, (rank v <= Rm)%nat) ->
+  (* constraints name edges of the graph and lengths are non-negative (both enforced by the constructor) *)
+  (forall c e, In c (p_cons (f_base I)) -> In e c -> In e (g_edges (p_graph (f_base I))) /\ (0 <= elen (f_base I) e)%Q) ->
+  ((exists a, sat a (encode_kfd I)) <-> (exists P w, decomposition I P w /\ constraints_covered (f_base I) P)).
+Proof.
+  intros WF Hae Hrank HR Hcons. split.
+  - intros (a & Hsat).
+    destruct (kfd_sound I a rank Rm WF Hae Hrank HR Hsat) as (Hpaths & Hweights & Hflow).
+    set (P := fun i => g_src (p_graph (f_base I)) ::
+                     match decode (g_edges (p_graph (f_base I))) (xval a i) (g_snk (p_graph (f_base I))) (Datatypes.S Rm)
+                                  (g_src (p_graph (f_base I))) with Some p => p | None => [] end).
+    assert (Q : forall i e, In i (layers (p_k (f_base I))) -> In e (g_edges (p_graph (f_base I))) ->
+                (indq (mem_edge e (pairs (P i))) == inject_Z (xval a i e))%Q).
+    { intros i e Hi He. destruct (Hpaths i Hi) as (p & D & L & Pm & _). unfold P. rewrite D.
+      destruct (xval_bin a i e (kfd_edge_bin I a Hsat i e Hi He)) as [_ [X|X]]; rewrite X.
+      - destruct (mem_edge e (pairs (g_src (p_graph (f_base I)) :: p))) eqn:M; [|reflexivity]. exfalso.
+        apply mem_edge_In in M. apply (Permutation_in _ (Permutation_sym Pm)) in M. apply Sup_In in M. destruct M as [_ M]. lia.
+      - assert (M : mem_edge e (pairs (g_src (p_graph (f_base I)) :: p)) = true).
+        { apply mem_edge_In. apply (Permutation_in _ Pm). apply Sup_In. split; [exact He|exact X]. }
+        rewrite M. reflexivity. }
+    exists P, (fun i => a (W i)). split; [unfold decomposition; split; [|split]|].
+    + intros i Hi. destruct (Hpaths i Hi) as (p & D & L & Pm & _). unfold P.
+      rewrite D. split; [reflexivity|]. split; [rewrite last_cons_default; exact L|].
+      assert (HinG : incl (pairs (g_src (p_graph (f_base I)) :: p)) (g_edges (p_graph (f_base I)))).
+      { intros e He. apply (Permutation_in _ (Permutation_sym Pm)) in He. apply Sup_In in He. tauto. }
+      split; [|exact HinG].
+      destruct (AugProofs.rank_walk_nodup _ rank Hrank p _ HinG) as [ND _]. exact ND.
+    + exact Hweights.
+    + intros e He Hig. rewrite <- (Hflow e He Hig). apply sumq_ext. intros i Hi. rewrite (Q i e Hi He). reflexivity.
+    + intros n c Hn.
+      pose proof Hsat as Hsat'. destruct Hsat as [Hc Hr]. unfold encode_kfd in Hc, Hr. cbn [cols rows] in Hc, Hr.
+      rewrite Forall_app in Hc, Hr. destruct Hc as [Hc _]. destruct Hr as [Hr _].
+      destruct (cons_rows_sound (f_base I) a Hc Hr n c Hn) as (i & Hi & Hcov).
+      exists i. split; [exact Hi|].
+      assert (E1 : (sumq (fun e => elen (f_base I) e * indq (mem_edge e (pairs (P i)))) c ==
+                    sumq (fun e => elen (f_base I) e * a (Edge (fst e) (snd e) i)) c)%Q).
+      { apply sumq_ext. intros e He.
+        assert (HeE : In e (g_edges (p_graph (f_base I)))) by (apply (Hcons c e); [apply nth_error_In with n; exact Hn|exact He]).
+        rewrite (Q i e Hi HeE).
+        destruct (xval_bin a i e (kfd_edge_bin I a Hsat' i e Hi HeE)) as [X _]. rewrite X. reflexivity. }
+      rewrite E1. exact Hcov.
+  - intros (P & w & (HP & Hw & Hf) & Hcov).
+    destruct (finite_choice (p_cons (f_base I))
+                (fun n c i => In i (layers (p_k (f_base I))) /\
+                   (cons_length (f_base I) c * p_cov (f_base I) <= sumq (fun e => elen (f_base I) e * indq (mem_edge e (pairs (P i)))) c)%Q)
+                Hcov) as (ch & Hch).
+    exists (asg P w ch). apply kfd_complete_cons; try assumption.
+    intros c e Hc He. apply (Hcons c e Hc He).
+Qed.
+
+Theorem mfd_returns_minimum_cons (inst : nat -> kfd_inst) (rank : node -> nat) (Rm : nat)
+        (feasible : nat -> bool) (lb ub kopt : nat) (sts : list raw) :
+  (* the instances tried differ only in k, are well formed, acyclic, empty paths not allowed; subpath constraints name
+     edges of the graph, lengths are non-negative *)
+  (forall k, p_k (f_base (inst k)) = k /\ wf_graph (p_graph (f_base (inst k))) /\
+             p_allow_empty (f_base (inst k)) = false /\
+             (forall u v, In (u, v) (g_edges (p_graph (f_base (inst k)))) -> (rank u < rank v)%nat) /\
+             (forall c e, In c (p_cons (f_base (inst k))) -> In e c ->
+                          In e (g_edges (p_graph (f_base (inst k)))) /\ (0 <= elen (f_base (inst k)) e)%Q)) ->
+  (forall v, (rank v <= Rm)%nat) ->
+  (forall k, feasible k = true <-> exists a, sat a (encode_kfd (inst k))) ->
+  (forall i, (i < ub - lb)%nat -> exists x, nth_error sts i = Some x /\
+             status_of x = if feasible (lb + i)%nat then Optimal else Infeasible) ->
+  (* kopt is the least number of paths of any decomposition that covers every constraint *)
+  (exists P w, decomposition (inst kopt) P w /\ constraints_covered (f_base (inst kopt)) P) ->
+  (forall k, (k < kopt)%nat -> ~ exists P w, decomposition (inst k) P w /\ constraints_covered (f_base (inst k)) P) ->
+  (lb <= kopt < ub)%nat ->
+  so_res (mpc_solve true lb ub sts) = Solved kopt.
+Proof.
+  intros Hinst HR Hspec Hsts Hopt Hmin Hrange.
+  apply (search_min feasible lb ub kopt sts Hsts).
+  - apply Hspec. destruct (Hinst kopt) as (_ & WF & Hae & Hrk & Hc).
+    apply (kfd_feasible_iff_cons (inst kopt) rank Rm WF Hae Hrk HR Hc). exact Hopt.
+  - intros k Hk. destruct (feasible k) eqn:F; [exfalso|reflexivity].
+    apply Hspec in F. destruct (Hinst k) as (_ & WF & Hae & Hrk & Hc).
+    apply (kfd_feasible_iff_cons (inst k) rank Rm WF Hae Hrk HR Hc) in F. exact (Hmin k Hk F).
   - exact Hrange.
 Qed.
